@@ -840,8 +840,8 @@ class C16(E2EProp):
     id = "C16"
     cone = ["Properties/C16.vo"]
     prop_file = "Properties/C16.v"
-    theorems = ["C16_examples"]
-    partial = ["C16_bounded (step cost bounded by a constant times the size): stated; the recursion shapes are tied by S-e2e under a watchdog; proof of the expansion-budget invariant pending",
+    theorems = ["C16_nesting_bounded", "C16_fuel_never_decides", "C16_examples"]
+    partial = ["C16_bounded as a step-count bound (cost <= K * size): not proved; proved instead: nesting of re-entrant calls is bounded by 43 + number of files for every document, so the recursion is always cut by the code's own limits; the total work inside these bounds (expansion budget 10000, argument size 10000) is exercised under a watchdog by S-e2e-recursion",
                "wall-clock time, memory and the Go stack limit are represented only as step count and nesting depth"]
     oracle = staticmethod(oracles.c16_oracle)
 
